@@ -5,14 +5,15 @@ EXTENDS PolicyMonitor, Json
 
 CONSTANTS MaxEvents, MaxPending
 
-VARIABLES files, clock, ms, gs, ev, pend, nev, removed
-vars == <<files, clock, ms, gs, ev, pend, nev, removed>>
-view == <<files, ms, gs, pend, nev, removed>>     \* clock is implied by the mtimes' order
+VARIABLES files, clock, ms, gs, ev, pend, nev, removed, last
+vars == <<files, clock, ms, gs, ev, pend, nev, removed, last>>
+view == <<files, ms, gs, pend, nev, removed, last>>     \* clock is implied by the mtimes' order
 
 Init == /\ files = [f \in FileSet |-> Absent]
         /\ clock = 10
         /\ ms = InitMs /\ gs = InitGs
         /\ ev = [kind |-> "none"] /\ pend = 0 /\ nev = 0 /\ removed = FALSE
+        /\ last = [f \in FileSet |-> Absent]         \* what a removed file looked like (for Restore)
 
 \* contents a file may have: any assignment of definitions to names, reserved names only rarely
 FileContents == {c \in Contents : c["public"] = "none" /\ c["default"] \in {"none", "d1"}}
@@ -23,7 +24,7 @@ Write(f, c, valid) ==
     /\ clock' = clock + 1
     /\ ev' = [kind |-> "write", f |-> f, content |-> c, valid |-> valid, mtime |-> clock + 1]
     /\ pend' = pend + 1 /\ nev' = nev + 1
-    /\ UNCHANGED <<ms, gs, removed>>
+    /\ UNCHANGED <<ms, gs, removed, last>>
 
 Remove(f) ==
     /\ nev < MaxEvents /\ pend < MaxPending          \* several files may disappear between two scans
@@ -31,7 +32,18 @@ Remove(f) ==
     /\ files' = [files EXCEPT ![f] = Absent]
     /\ ev' = [kind |-> "remove", f |-> f]
     /\ pend' = pend + 1 /\ nev' = nev + 1 /\ removed' = TRUE
+    /\ last' = [last EXCEPT ![f] = files[f]]
     /\ UNCHANGED <<ms, gs, clock>>
+
+\* a removed file comes back exactly as it was - same content, same (old) modification time: moved out of the directory
+\* and back, renamed to *.disabled and back, restored with cp -p
+Restore(f) ==
+    /\ nev < MaxEvents /\ pend < MaxPending
+    /\ ~files[f].present /\ last[f].present
+    /\ files' = [files EXCEPT ![f] = last[f]]
+    /\ ev' = [kind |-> "write", f |-> f, content |-> last[f].content, valid |-> last[f].valid, mtime |-> last[f].mtime]
+    /\ pend' = pend + 1 /\ nev' = nev + 1
+    /\ UNCHANGED <<ms, gs, clock, removed, last>>
 
 DoScan ==
     /\ pend > 0
@@ -39,11 +51,12 @@ DoScan ==
     /\ gs' = GhostScan(gs, ms, files, 1)
     /\ ev' = [kind |-> "scan"]
     /\ pend' = 0 /\ removed' = FALSE
-    /\ UNCHANGED <<files, clock, nev>>
+    /\ UNCHANGED <<files, clock, nev, last>>
 
 Next == \/ \E f \in FileSet, c \in FileContents : Write(f, c, TRUE)
         \/ \E f \in FileSet : files[f].present /\ Write(f, files[f].content, FALSE)     \* broken version
         \/ \E f \in FileSet : Remove(f)
+        \/ \E f \in FileSet : Restore(f)
         \/ DoScan
 
 Spec == Init /\ [][Next]_vars
